@@ -133,6 +133,57 @@ func runC14(c *eng.Ctx) {
 				c.Ob("GUARD-vacuum-phase", fmt.Sprintf("%s returns-flag#%d", eng.FuncName(fn), i), r.(*ssa.Return).Results[0] == flag, eng.InstrPos(r), "the commit phase reports the success flag")
 			}
 		}
+		// the read-only answer of ANY replica keeps the volume out of the writable set: the flag handed to
+		// SetVolumeAvailable is only ever raised inside the per-replica step (set to true, or or-ed with itself)
+		for si, s := range sva {
+			ld, ok := eng.Unwrap(eng.Arg(s.(ssa.CallInstruction), 2)).(*ssa.UnOp)
+			var cell *ssa.Alloc
+			if ok {
+				cell, _ = ld.X.(*ssa.Alloc)
+			}
+			if cell == nil {
+				c.Ob("GUARD-vacuum-phase", fmt.Sprintf("%s read-only-sticky#%d", eng.FuncName(fn), si), false, s.Pos(), "the read-only argument of SetVolumeAvailable is not a variable collected from the replicas' answers")
+				continue
+			}
+			nSt, bad := 0, ""
+			for _, f := range eng.WithAnon(fn) {
+				for _, in := range eng.Find(f, func(in ssa.Instruction) bool { _, ok := in.(*ssa.Store); return ok }) {
+					st := in.(*ssa.Store)
+					same := st.Addr == ssa.Value(cell)
+					if fv, isFV := st.Addr.(*ssa.FreeVar); isFV && f != fn {
+						same = boundTo(fn, f, fv) == ssa.Value(cell)
+					}
+					if !same || len(eng.CycleOf(st.Block())) == 0 && f == fn {
+						continue // the initialisation before the loop
+					}
+					nSt++
+					if b, isK := eng.ConstBool(st.Val); isK && b {
+						continue
+					}
+					// x = x || answer: a phi whose edge from the block testing x itself carries true
+					if phi, isPhi := st.Val.(*ssa.Phi); isPhi {
+						selfOr := false
+						for j, p := range phi.Block().Preds {
+							iff, isIf := p.Instrs[len(p.Instrs)-1].(*ssa.If)
+							if !isIf {
+								continue
+							}
+							u, isLoad := iff.Cond.(*ssa.UnOp)
+							if k, isK := eng.ConstBool(phi.Edges[j]); isLoad && u.Op == token.MUL && u.X == st.Addr && isK && k && p.Succs[0] == phi.Block() {
+								selfOr = true
+							}
+						}
+						if selfOr {
+							continue
+						}
+					}
+					bad = c.P.Pos(st.Pos())
+				}
+			}
+			c.Ob("GUARD-vacuum-phase", fmt.Sprintf("%s read-only-sticky#%d", eng.FuncName(fn), si), nSt > 0 && bad == "", s.Pos(),
+				"a replica's answer can only raise the read-only flag, never lower what an earlier replica reported"+ifs(bad != "", ": overwritten at "+bad))
+		}
+
 		// PAIR inside commit: every exit passes SetVolumeAvailable
 		hit, path := eng.Search(eng.Entry(fn), eng.IsReturn, eng.SearchOpt{Barrier: eng.AnyOf(sva)})
 		c.Ob("PAIR-vacuum-writable", eng.FuncName(fn)+" commit-exits", hit == nil, fn.Pos(),
@@ -142,6 +193,9 @@ func runC14(c *eng.Ctx) {
 			c.ErrChecked("ERR-vacuum-rpc", "commit-closure", cl, eng.Find(cl, eng.PlainCallTo("VolumeServerClient).VacuumVolumeCommit")), "the commit RPC error is returned")
 		}
 	}
+	// a request that reaches a replica while its compaction is copying is replayed by the commit (replicas end the round
+	// with the same live content): the replay starts from a snapshot taken before the copy
+	snapshotBeforeCopy(c, "ORDER-vacuum-snapshot")
 	if fn := c.NeedFunc("weed/topology", "(*Topology).batchVacuumVolumeCompact"); fn != nil {
 		for _, cl := range fn.AnonFuncs {
 			// goroutine closure: ch <- true only on err == nil
@@ -301,4 +355,30 @@ func runC14(c *eng.Ctx) {
 	}
 	c.Expect("ERR-compaction", 15)
 	c.Note("compaction call tree: %d functions, %d data-moving call sites", len(tree), n)
+}
+
+// boundTo returns the value of outer (or of a function literal between outer and inner) that inner's free variable fv is bound to.
+func boundTo(outer, inner *ssa.Function, fv *ssa.FreeVar) ssa.Value {
+	idx := -1
+	for i, f := range inner.FreeVars {
+		if f == fv {
+			idx = i
+		}
+	}
+	if idx < 0 {
+		return nil
+	}
+	for _, f := range eng.WithAnon(outer) {
+		for _, b := range f.Blocks {
+			for _, in := range b.Instrs {
+				if mc, ok := in.(*ssa.MakeClosure); ok && mc.Fn == inner && idx < len(mc.Bindings) {
+					if up, isFV := mc.Bindings[idx].(*ssa.FreeVar); isFV && f != outer {
+						return boundTo(outer, f, up)
+					}
+					return mc.Bindings[idx]
+				}
+			}
+		}
+	}
+	return nil
 }
